@@ -87,9 +87,9 @@ theorem live_point {c : Cfg} (hc : CfgOK c) : PointInv c Live where
 /-- every installed permission, binding and outbound TCP peer is one the operator's permission handler
     granted, and permissions and bindings are of the allocation's address family -/
 def PolicyOK (c : Cfg) (_ : Nat) (a : Alloc) : Prop :=
-  (∀ p ∈ a.perms, granted c a.key.lid p.ip = true ∧ famOK p.ip a.fam = true) ∧
-  (∀ ch ∈ a.chans, granted c a.key.lid ch.peer.ip = true ∧ famOK ch.peer.ip a.fam = true) ∧
-  (∀ t ∈ a.conns, t.inbound = false → granted c a.key.lid t.peer.ip = true)
+  (∀ p ∈ a.perms, granted c a.key p.ip = true ∧ famOK p.ip a.fam = true) ∧
+  (∀ ch ∈ a.chans, granted c a.key ch.peer.ip = true ∧ famOK ch.peer.ip a.fam = true) ∧
+  (∀ t ∈ a.conns, t.inbound = false → granted c a.key t.peer.ip = true)
 
 theorem policy_point (c : Cfg) : PointInv c (PolicyOK c) where
   fresh := by
